@@ -249,6 +249,16 @@ def grid_jobs(prefix, harness, repo_srcs, tier, nshards=16, defs=None, libs=None
     return jobs
 
 
+def cxx_jobs(module, src):
+    """C++ member wrappers of the anchored headers next to the C functions they name (harness/cxx.cpp), both real widths."""
+    # one harness covers every module, so every job links the union of the sources (src is ignored)
+    src = ['src/pid.c', 'src/pid_neuro.c', 'src/pid_fuzzy.c', 'src/mf.c', 'src/fuzzy.c', 'src/tf.c', 'src/trajpoly3.c', 'src/trajpoly5.c', 'src/trajpoly7.c', 'src/poly.c',
+           'src/trajtrap.c', 'src/trajbell.c', 'src/math.c', 'src/a.c']
+    jobs = grid_jobs('cxx-%s-f64' % module, 'harness/cxx.cpp', src, 'quick', 1, extra=['--module', module], build='cxx-f64')
+    jobs += grid_jobs('cxx-%s-f32' % module, 'harness/cxx.cpp', src, 'quick', 1, extra=['--module', module], build='cxx-f32', defs=['-DA_SIZE_REAL=4'])
+    return jobs
+
+
 def c19_jobs(tier):
     src = ['src/math.c', 'src/a.c']
     jobs = grid_jobs('bits', 'harness/bits.cpp', src, tier, 16)
@@ -344,6 +354,7 @@ def c15_jobs(tier):
     jobs = grid_jobs('tpoly-f64', 'harness/tpoly.cpp', src, tier, 16, libs=libs)
     jobs += grid_jobs('tpoly-f32', 'harness/tpoly.cpp', src, tier, 8, defs=['-DA_SIZE_REAL=4'], libs=libs)
     jobs += grid_jobs('tpoly-f64-inline', 'harness/tpoly.cpp', src, 'quick', 4, defs=['-DA_HAVE_INLINE=1'], libs=libs)
+    jobs += cxx_jobs('poly', src)
     return jobs
 
 
@@ -369,6 +380,7 @@ def c12_jobs(tier):
         jobs += grid_jobs('pid-%s' % mode, 'harness/pid.cpp', src, tier, n if tier == 'quick' else 16, extra=['--mode', mode], build='pid', deadline=D)
     for mode in ('plain', 'neuro', 'fuzzy'):
         jobs += grid_jobs('pid-%s-asan' % mode, 'harness/pid.cpp', src, 'quick', 4, extra=['--mode', mode], build='pid-asan', san='asan', deadline=D)
+    jobs += cxx_jobs('pid', src)
     return jobs
 
 
@@ -378,7 +390,7 @@ CHECKS['C12'] = {
              'thorough: the full product kp,kd in {0,1/2,2} x ki in {0,1/2,1} x 4 integrator-limit pairs x 4 output-limit pairs = 432 sets) from EVERY reachable state EVERY step (mode in {run,pos,inc}) x (set-point, feedback) in {-2,0,1}^2 (thorough {-3,-1,0,2}^2) and zero is executed; '
              'all quantities are dyadic so the arithmetic is exact and the BFS reaches a FIXPOINT (histories of any length). Oracle after every step: output within limits, state finite, integrator never moves further beyond its clamp, inside the clamp it advances by exactly ki*err, beyond the clamp it holds unless the error points inward, '
              'positional and incremental outputs equal the difference equations exactly, zero restores the initial state. A shadow pair (positional + incremental controller fed the same inputs) must coincide for as long as no limit has been active. '
-             'Single-neuron controller: depth-bounded BFS (4 steps quick, 5 thorough) from 4 weight vectors incl. all-zero x 2 output gains; fuzzy controller: depth-bounded BFS (3 / 4 steps) over 4 rule bases (3x3 shoulder triangles, 5x5 trapezoid shoulders, 3 wide triangles with 3 simultaneously active sets, the 7x7 base of test/pid_fuzzy.h) x ALL SEVEN operators x parameter sets, scratch buffer of exactly A_PID_FUZZY_BFUZZ(active) bytes between canaries: '
+             'Single-neuron controller: depth-bounded BFS (4 steps quick, 5 thorough) from 4 weight vectors incl. all-zero x 2 output gains; fuzzy controller: depth-bounded BFS (3 / 4 steps) over 5 rule bases (3x3 shoulder triangles with and without a kp table, 5x5 trapezoid shoulders, 3 wide triangles with 3 simultaneously active sets, the 7x7 base of test/pid_fuzzy.h) x ALL SEVEN operators x parameter sets, scratch buffer of exactly A_PID_FUZZY_BFUZZ(active) bytes between canaries: '
              'output within limits, every field and scheduled gain finite, gains within base + [min,max] of the consequents, step equations with the gains scheduled for that step. distinct_nontrivial = distinct reachable controller states.'),
     'assumptions': ['dyadic gains/limits/inputs: every floating-point operation of the plain controller is exact, so == comparisons are sound; the fuzzy step is compared within 16 ulp of the term magnitude because scheduled gains are weighted means',
                     'exactly on a clamp (sum == summax or sum == summin) either holding or integrating is accepted: code comment and header formula differ there', 'the neuron controller is checked for limits, finiteness, cache updates and zeroing, not against the header formula (the statement names the equations of the positional and incremental forms)',
@@ -402,7 +414,7 @@ CHECKS['C13'] = {
     'rule': ('bounded-exhaustive enumeration against an independent long-double reference of the documented shapes. Membership functions: all 13 kinds; EVERY parameter tuple a<=b<=c<=d from {-2,-1,-1/2,0,1,1.5,3} INCLUDING ties for tri/trap/lins/linz, non-zero widths for the smooth kinds (3 widths x 7 centres, bell exponents 1..3, slopes +-1,+-4), equal slopes and ordered centres for dsig; '
              'x = every break point, one ulp on either side, quarter points between break points, +-7.5, +-1e3. Per evaluation: value in [0,1] and not NaN, equal to the documented piecewise shape (4 ulp piecewise, 64 ulp transcendental; the reference is continuous, so the +-1 ulp points check continuity), exactly 1 on the core (incl. a peak that coincides with a foot), flank monotonicity between neighbouring lattice points, dispatcher == specific function (also for the terminator and out-of-range kinds), s+z == 1 and lins+linz == 1. '
              'Operators: all pairs from {0,1/16,...,1}^2 for the seven operators: range, commutativity, monotone in each argument, cap <= min, cup >= max, the compensatory operator between algebraic product and algebraic sum, boundary cases at 0 and 1, definition, not involutive, selector. '
-             'Gain scheduling: 6 rule bases (incl. the degenerate shoulder triangles of test/pid_fuzzy.h, 3 simultaneously active sets, gaussian/bell sets) x 7 operators x a 41x41 (81x81 thorough) (e, ec) lattice spanning beyond the universe: corrections equal the weighted mean of the active consequents, lie between their min and max, stay finite when the total firing strength is zero, equal the base gains when no rule is active; scratch buffer of exactly A_PID_FUZZY_BFUZZ(active) bytes between canaries.'),
+             'Gain scheduling: 7 rule bases (each of the kp, ki, kd tables absent in one of them) (incl. the degenerate shoulder triangles of test/pid_fuzzy.h, 3 simultaneously active sets, gaussian/bell sets) x 7 operators x a 41x41 (81x81 thorough) (e, ec) lattice spanning beyond the universe: corrections equal the weighted mean of the active consequents, lie between their min and max, stay finite when the total firing strength is zero, equal the base gains when no rule is active; scratch buffer of exactly A_PID_FUZZY_BFUZZ(active) bytes between canaries.'),
     'assumptions': ['a set is active when its degree exceeds the real type epsilon (the controller\'s own threshold)', 'the compensatory operator a_fuzzy_equ is neither an intersection nor a union; it is bounded by the algebraic product and sum, not by min/max'],
     'design_ref': '§4.C13', 'technique': 'bounded-exhaustive enumeration of parameter tuples (ties included) x abscissa lattices, operator pair grids and (e, ec) lattices against an independent reference',
     'level_text': 'Every branch constant of the 13 membership functions becomes lattice points at, just below and just above it, for every ordered parameter tuple including all ties; the operators are decided on a 17x17 grid; the scheduled gains are compared with an independent mean-of-centres reference on a dense (e, ec) lattice for every operator and six rule bases.',
@@ -415,6 +427,7 @@ def c16_jobs(tier):
     jobs = grid_jobs('filt-f64', 'harness/filt.cpp', src, tier, 16)
     jobs += grid_jobs('filt-f32', 'harness/filt.cpp', src, 'quick', 8, defs=['-DA_SIZE_REAL=4'])
     jobs += grid_jobs('filt-f64-asan', 'harness/filt.cpp', src, 'quick', 8, san='asan')
+    jobs += cxx_jobs('filt', src)
     return jobs
 
 
@@ -437,6 +450,7 @@ def c14_jobs(tier):
     # float: always the quick lattice. The thorough lattice adds extreme limits (jm 100, travel 0.01) for which the float build of the
     # iterative no-cruise solver (absolute-epsilon bisection) is not accurate enough to state a tolerance; see DESIGN.md section 7
     jobs += grid_jobs('traj-f32', 'harness/traj.cpp', src, 'quick', 8, defs=['-DA_SIZE_REAL=4'])
+    jobs += cxx_jobs('traj', src)
     return jobs
 
 
